@@ -681,7 +681,6 @@ func TestVerif_C21(t *testing.T) {
 		}
 	}
 	idx := uint64(0)
-	keyCache := map[int]string{}
 	for _, pl := range plans {
 		n := pl.n
 		U := n + 1 // labels 0..n-1 = h1..hn, n = hx
@@ -734,15 +733,17 @@ func TestVerif_C21(t *testing.T) {
 					}
 					for _, mode := range pl.modes {
 						for _, step := range pl.steps {
-							kk := ((n*8+nNew)*8+nQ)*64 + step
-							if dup {
-								kk = -kk
+							qk := "some"
+							if nQ == 0 {
+								qk = "none"
+							} else if nNew == 0 {
+								qk = "all"
 							}
-							ks, ok := keyCache[kk]
-							if !ok {
-								ks = fmt.Sprintf("n=%d,new=%d,queued=%d,dup=%v,gap=%d", n, nNew, nQ, dup, step)
-								keyCache[kk] = ks
+							gk := "1"
+							if step > 1 {
+								gk = ">1"
 							}
+							ks := "queued=" + qk + ",dup=" + map[bool]string{false: "no", true: "yes"}[dup] + ",gap=" + gk
 							c := c21Case{N: n, Hist: hist, Key: ks}
 							var avail []c21Rep
 							for i := 0; i < n; i++ {
@@ -798,7 +799,7 @@ func TestVerif_C21(t *testing.T) {
 				if !r.Mine(idx) {
 					return
 				}
-				c := c21Case{N: 4, Hist: hist, Key: fmt.Sprintf("chain,depth=%d", d)}
+				c := c21Case{N: 4, Hist: hist, Key: "chain"}
 				id := 0
 				for _, e := range s {
 					b := c21Block{Step: evs[e].step}
